@@ -12,6 +12,7 @@ def arg(name, default=None):
     return sys.argv[sys.argv.index(name) + 1] if name in sys.argv else default
 
 PER = int(arg("--per-file", "20")); NW = int(arg("--workers", "8")); OUT = arg("--out", "/tmp/mut/results.json")
+OPS_FROM = int(arg("--ops-from", "0"))
 SEED = int(arg("--seed", "1")); FILES = arg("--files")
 ROOT = "/tmp/mut"
 OPS = [
@@ -23,6 +24,11 @@ OPS = [
     (r"\+=", "-="), (r"-=", "+="), (r"\* 2\b", "* 3"), (r"/ 2\b", "/ 3"), (r"\b0\.5\b", "0.25"), (r" % ", " / "),
     (r"\.abs\(\)", ""), (r"\.saturating_sub\(", ".wrapping_sub("), (r"\.insert\(", ".toggle("), (r"\.toggle\(", ".insert("),
     (r"\bbreak;", "continue;"), (r"\.unwrap_or\(0\)", ".unwrap_or(1)"), (r"\b1\.\.", "0.."), (r"\b0\.\.", "1.."), (r"\.\.=", ".."),
+    # round 2 operators
+    (r"(?<![\w.])(\d{2,})(?![\w.])", "INC"), (r"(?<![=!<>])!(?=[\w(])", ""), (r"\.saturating_add\(", ".wrapping_add("),
+    (r"(?<![<>=!-])<(?![<=])", ">"), (r"(?<![->=])>(?![>=])", "<"), (r"^(\s*)(self\.[\w.]+\([^;]*\);)\s*$", "DELSTMT"),
+    (r"^(\s*)([\w.\[\]*]+ (?:[-+^|&]?)= [^;]*;)\s*$", "DELSTMT"), (r"\.zip\(", ".skip(1).zip("),
+    (r"\bSome\((\w+)\)", "None"), (r" \+ ", " - "), (r" - ", " + "), (r" \* ", " + "), (r"\^= 1", "^= 0"), (r"\.rev\(\)", ".rev().skip(1)"),
 ]
 
 def sh(cmd, cwd=None, timeout=900):
@@ -44,6 +50,8 @@ def candidates(path, text):
         if code.count('"') >= 2:
             continue
         for oi, (pat, rep) in enumerate(OPS):
+            if oi < OPS_FROM:
+                continue
             for m in re.finditer(pat, code):
                 out.append((lineno, m.start(), m.end(), oi))
     return out
@@ -77,6 +85,10 @@ def main():
             lines = orig.split("\n")
             line = lines[m["line"] - 1]
             pat, rep = OPS[m["op"]]
+            if rep == "INC":
+                rep = str(int(line[m["a"]:m["b"]]) + 1)
+            elif rep == "DELSTMT":
+                rep = re.match(r"\s*", line).group(0) + "/* deleted */"
             new = line[:m["a"]] + rep + line[m["b"]:]
             lines[m["line"] - 1] = new
             open(p, "w").write("\n".join(lines))
